@@ -39,6 +39,7 @@ class Own:
         self.ctx, self.P, self.cg = ctx, P, cg
         self.own_producers = {}   # ir name -> kind, discovered
         self._fate = {}
+        self._taken = {}
         self._deref = None
         self._views = {}
         self._discover_producers()
@@ -266,6 +267,11 @@ class Own:
                             if o["state"] == "released":
                                 findings.append(Finding("double-release", f, i, "%s acquired at %s is released twice on one path (first at %s)" %
                                                         (o["label"], o["site"].loc if o["site"] is not None else "entry", o["released_at"].loc), view, o))
+                            elif o["state"] == "escaped" and o["escapes"] and o["escapes"][-1][0].startswith("callee-taken:") and o["site"] is not None:
+                                findings.append(Finding("double-release", f, i, "%s acquired at %s is released although %s() (called at %s) has "
+                                                        "already taken it over on this path: on every path of that result the callee frees its "
+                                                        "argument or attaches it to the message it builds" %
+                                                        (o["label"], o["site"].loc, o["escapes"][-1][0][13:], o["escapes"][-1][1].loc), view, o))
                             o["state"] = "released"
                             o["released_at"] = i
                         events.append(("release", i, o))
@@ -328,7 +334,8 @@ class Own:
                             fate = self.param_fate(g, ak, cls, conds)
                             if fate == "consumed":
                                 o["state"] = "escaped"
-                                o["escapes"].append(("callee:" + g.srcname, i))
+                                tk = self._taken.get((g.name, ak, repr(conds)))
+                                o["escapes"].append((("callee-taken:" if tk else "callee:") + g.srcname, i))
                             elif fate == "released":
                                 o["state"] = "released"
                                 o["released_at"] = i
@@ -415,12 +422,14 @@ class Own:
         """what does g do with pointer parameter k on the paths of return class cls:
         'consumed' (freed or stored away on all paths) | 'released' | 'kept' (untouched on all) | 'mixed'"""
         key = (g.name, k, repr(cls_key))
+        self._last_fate_key = key
         if key in self._fate:
             return self._fate[key]
         self._fate[key] = "kept"  # recursion guard
         if k >= g.nparams or not g.params[k]["ty"].endswith("*"):
             return "kept"
         res = set()
+        taken = True   # on every path of the class: freed, or attached to a JSON tree / handed to a function that does so
         for v in self.views(g):
             if not cls(v):
                 continue
@@ -430,8 +439,13 @@ class Own:
                 res.add("released")
             elif o["state"] == "escaped":
                 res.add("consumed")
+                last = o["escapes"][-1][0] if o["escapes"] else ""
+                if not (last == "consumed" or last.startswith("callee-taken:")):
+                    taken = False
             else:
                 res.add("kept")
+                taken = False
+        self._taken[key] = taken and bool(res)
         if not res:
             r = "kept"
         elif len(res) == 1:
